@@ -52,11 +52,17 @@ int main()
     if (t[0] == "sec" && f.size() == 11) {
       EarthEllipsoid el(f[0], f[1]);
       LambertConverter::SecantProjectionParameters sp{f[2], f[3], f[4], f[5], f[6], f[7]};
-      emit(LambertConverter(sp, el), LambertConverter::computeProjectionParameters(sp, el), f[3], f[2], f[8], f[9], f[10]);
+      LambertConverter conv(sp, el);
+      LambertConverter::ProjectionParameters pp = LambertConverter::computeProjectionParameters(sp, el);
+      el = EarthEllipsoid(6371000.0, 6371000.0);   // the converter must not depend on the variable it was built from
+      emit(conv, pp, f[3], f[2], f[8], f[9], f[10]);
     } else if (t[0] == "tan" && f.size() == 10) {
       EarthEllipsoid el(f[0], f[1]);
       LambertConverter::TangentProjectionParameters tp{f[2], f[3], f[4], f[5], f[6]};
-      emit(LambertConverter(tp, el), LambertConverter::computeProjectionParameters(tp, el), f[2], f[3], f[7], f[8], f[9]);
+      LambertConverter conv(tp, el);
+      LambertConverter::ProjectionParameters pp = LambertConverter::computeProjectionParameters(tp, el);
+      el = EarthEllipsoid(6371000.0, 6371000.0);
+      emit(conv, pp, f[2], f[3], f[7], f[8], f[9]);
     } else if (t[0] == "iso" && f.size() == 2) {
       double L = LambertConverter::computeIsometricLatitude(f[0], f[1]);
       double back = 0;
